@@ -77,9 +77,13 @@ fn walk(v: &Value, f: &dyn Fn(&str) -> String) -> Value {
         Value::String(s) => Value::String(map_uuids(s, f)),
         Value::Array(a) => Value::Array(a.iter().map(|x| walk(x, f)).collect()),
         Value::Object(m) => {
+            // serde_json may be built with `preserve_order` (feature unification): insert keys in sorted
+            // order so that serialisations (fingerprints) do not depend on HashMap iteration order
+            let mut items: Vec<(String, Value)> = m.iter().map(|(k, x)| (map_uuids(k, f), walk(x, f))).collect();
+            items.sort_by(|a, b| a.0.cmp(&b.0));
             let mut out = Map::new();
-            for (k, x) in m {
-                out.insert(map_uuids(k, f), walk(x, f));
+            for (k, x) in items {
+                out.insert(k, x);
             }
             Value::Object(out)
         }
